@@ -390,6 +390,32 @@ def enumerate_trip_during():
     return cases
 
 
+def forced_trip_cases():
+    """The same class with a FORCED breaker (white-box, harness/overlay/sqlx/verif_c14_test.go): the breaker field of the
+    SqlConn is replaced by a switch around the real one and the body flips it open at the tripbrk step - deterministic,
+    no failing requests needed. One or two transactions one after the other on one SqlConn (the second one is refused at
+    the door), api ctx / plain, Exec / ExecCtx statements, every ending, the trip before / between / after the
+    statements, the end call working or failing. Rendered and judged like every other case; if the overlay does not
+    build against the tree (no such field any more) the cases go to the black-box executor and its real breaker."""
+    cases = []
+    n = 0
+    for api in ("ctx", "plain"):
+        for fin in ("nil", "err", "panic", "goexit"):
+            for pos in (0, 1, 2):
+                for orc in ([], ["ok", "ok", "ok", "fail"], ["ok", "fail"]):
+                    n += 1
+                    steps = [S(withctx=n % 2 == 0, onfail=rot(["stop", "ignore"], n // 2)), S(withctx=n % 3 == 0, onfail="stop")]
+                    steps.insert(pos, S(act="tripbrk"))
+                    ths = [T(api=api, steps=steps, fin=fin)]
+                    if n % 2:
+                        ths.append(T(api=rot(["ctx", "plain"], n), steps=[S()]))
+                    cases.append(C(forced=True, threads=ths, oracle=list(orc)))
+    return cases
+
+
+FORCED_OVERLAY = {"core/stores/sqlx/verif_c14_test.go": os.path.join(vlib.ROOT, "harness", "overlay", "sqlx", "verif_c14_test.go")}
+
+
 def rand_steps(rng, length, pself=0.03):
     steps = []
     for _ in range(length):
@@ -684,6 +710,14 @@ class C14(Property):
         "database/sql (Go standard library) between go-zero and the scripted driver is not modelled; its pass-through / "
         "refusal behaviour is what the correspondence run observes",
         "errors are compared through errors.Is / identity / message prefix facts",
+        "PYTHON-ONLY MONITOR, outside the proved judgement: free_check (tools/props/c14.py), the per-connection reading of the "
+        "driver log of the free-running -race family of the thorough tier (no schedule to replay, Begin/Commit/Rollback "
+        "attributed through the connection); it has no Coq counterpart and no soundness lemma; every quick-tier case and "
+        "every forced-schedule case of the thorough tier is judged by Check.prop_ok, whose meaning is "
+        "Props.check_means_the_property",
+        "white-box overlay harness/overlay/sqlx/verif_c14_test.go (go test -overlay, nothing written under /repo): replaces "
+        "the SqlConn's breaker field by a switch around the real breaker for the forced-breaker family; falls back to the "
+        "black-box executor and the real breaker when the field cannot be found",
     ]
     assumptions = ["bodies are sequential scripts of Session calls ending by return nil / return err / panic / runtime.Goexit",
                    "the driver's Begin and statement entry points return (possibly an error); only Commit/Rollback may panic"]
@@ -793,16 +827,40 @@ class C14(Property):
         cases += enumerate_values()
         cases += enumerate_nested_calls()
         cases += enumerate_trip_during()
+        cases += forced_trip_cases()
         for i in range(n):
             cases.append(rand_world(rng, ("long", "seq", "seq", "conc", "conc", "nested")[i % 6]))
         for i in range(40 if thorough else 6):
             cases.append(breaker_sequence(rng))
         return cases
 
+    def _execute_forced(self, cases, idx, ctx):
+        """white-box run of the forced-breaker cases; {} when the overlay cannot be used on this tree"""
+        if not idx:
+            return {}
+        try:
+            rc, out, res = vlib.go_test_overlay("./core/stores/sqlx", FORCED_OVERLAY, run="^TestVerifC14$",
+                                                cases=[dict(cases[i], id=i) for i in idx], tag="c14w", timeout=300)
+        except Exception as e:   # noqa: the fallback below judges the same cases with the real breaker
+            rc, out, res = 1, str(e), []
+        if rc != 0 or len(res) != len(idx) or any(r.get("unsupported") for r in res):
+            why = next((r["unsupported"] for r in res if r.get("unsupported")), "go test -overlay rc=%s" % rc)
+            ctx.notes.append("forced-breaker overlay not usable on this tree (%s): %d cases run by the black-box executor "
+                             "with the real breaker instead" % (why[:200], len(idx)))
+            return {}
+        return dict(zip(idx, res))
+
     def execute(self, cases, ctx):
-        rc, out, res = vlib.go_run(self.bin, [dict(c, id=i) for i, c in enumerate(cases)], tag="c14", timeout=900)
-        if rc != 0 or len(res) != len(cases):
+        forced = self._execute_forced(cases, [i for i, c in enumerate(cases) if c.get("forced")], ctx)
+        rest = [i for i in range(len(cases)) if i not in forced]
+        rc, out, res0 = vlib.go_run(self.bin, [dict(cases[i], id=i) for i in rest], tag="c14", timeout=900)
+        if rc != 0 or len(res0) != len(rest):
             raise ExecError("c14 executor rc=%s: %s" % (rc, out[-2000:]))
+        res = [None] * len(cases)
+        for i, r in zip(rest, res0):
+            res[i] = r
+        for i, r in forced.items():
+            res[i] = r
         # a tree whose session type offers no Commit / Rollback to a type assertion (nor a *sql.Tx to find): the body
         # cannot end the transaction behind Transact's back; those steps become no-ops and the cases are run again
         redo = [i for i, r in enumerate(res) if r.get("unsupported")]
@@ -909,6 +967,8 @@ class C14(Property):
                 fs.append("body_ended_tx_itself")
             if o.get("trips"):
                 fs.append("breaker_opened_during_body" if o.get("trips_open") else "breaker_trip_during_body_failed")
+            if o.get("forced"):
+                fs.append("breaker_forced_open_whitebox")
             if o.get("late"):
                 fs.append("session_used_after_end=" + o["late"].split(":")[0])
             if o.get("no_rewrap"):
@@ -1010,6 +1070,9 @@ class C14(Property):
             bad.append("tx%d: driver %s, body %s, returned %s" % (
                 t, tr, o["body"], "panic" if o["did_panic"] else "never" if o["finished"] and not o["returned"]
                 else repr(o["err"].get("text") or None)))
+            if o.get("nest_runs"):
+                bad.append("tx%d: the body handed to a Transact on the transaction's OWN session ran %d time(s) (no transaction "
+                           "was begun for it)" % (t, o["nest_runs"]))
         return ("; ".join(bad) + ": some transaction did not end exactly once with commit-iff-nil on its own "
                 "connection, or the outcome was not reported")
 
